@@ -445,3 +445,49 @@ Theorem C03_node_count_canonical_size_examples :
   canon_size_bdd 3 (fun c => Nat.eqb (c 1) 0) = 3%N.
 Proof. exact ex_canon_size. Qed.
 Print Assumptions C03_node_count_canonical_size_examples.
+
+(* BCDD: the same with subfunctions taken up to complement (the untagged edge to a reference denotes the
+   representative that is true on the all-"then" choice); exactly one terminal is reachable *)
+From OxiVerif Require Import DD.BuildCanonSizeBcdd.
+Theorem C03_node_count_canonical_size_bcdd : forall s, BcOK s -> forall e phi, DenC s e phi ->
+  count_reach s e = canon_size_bcdd (nlevels s) phi.
+Proof. exact bcdd_count_is_canon_size. Qed.
+Print Assumptions C03_node_count_canonical_size_bcdd.
+
+Theorem C03_node_count_canonical_size_bcdd_edge : forall s e, BcOK s -> ref_ok s (eref e) ->
+  count_reach s e = canon_size_bcdd (nlevels s) (cfun_of s e).
+Proof. exact bcdd_node_count_canon_size. Qed.
+Print Assumptions C03_node_count_canonical_size_bcdd_edge.
+
+Theorem C03_node_count_canonical_size_bcdd_build : forall v2l l2v f, order_ok v2l l2v ->
+  exists s e, build_bcdd v2l l2v f = Some (s, e) /\ BcOK s /\
+    count_reach s e = canon_size_bcdd (length l2v) (fun c => f (ctrunc (length l2v) c)).
+Proof. exact build_bcdd_canon_size. Qed.
+Print Assumptions C03_node_count_canonical_size_bcdd_build.
+
+Theorem C03_node_count_canonical_bcdd_reachable_is_sub : forall s, BcOK s -> forall e0 phi, DenC s e0 phi ->
+  forall x, reachable s (eref e0 :: nil) x ->
+  exists p t, bchoice p /\ DenC s (mkEdge x t) (sub phi (rlevel s x) p).
+Proof. exact creachable_is_sub. Qed.
+Print Assumptions C03_node_count_canonical_bcdd_reachable_is_sub.
+
+Theorem C03_node_count_canonical_bcdd_sub_is_reachable : forall s, BcOK s -> forall e0 phi, DenC s e0 phi ->
+  forall L p, L <= nlevels s -> bchoice p ->
+  exists x t, reachable s (eref e0 :: nil) x /\ DenC s (mkEdge x t) (sub phi L p) /\ L <= rlevel s x.
+Proof. exact csub_is_reachable. Qed.
+Print Assumptions C03_node_count_canonical_bcdd_sub_is_reachable.
+
+Theorem C03_node_count_canonical_bcdd_sub_level_iff : forall s, BcOK s -> forall e0 phi, DenC s e0 phi ->
+  forall L p e, L < nlevels s -> bchoice p -> DenC s e (sub phi L p) ->
+  (rlevel s (eref e) = L <-> depends_on (sub phi L p) L).
+Proof. exact csub_level_iff. Qed.
+Print Assumptions C03_node_count_canonical_bcdd_sub_level_iff.
+
+Theorem C03_node_count_canonical_size_bcdd_examples :
+  canon_size_bcdd (nlevels ex_bcdd) (cfun_of ex_bcdd (mkEdge (RN 2) true)) = 3%N /\
+  count_reach ex_bcdd (mkEdge (RN 2) true) = 3%N /\
+  canon_size_bcdd 4 (lvl_fun (0 :: 1 :: 2 :: 3 :: nil) (fun a => orb (andb (a 0) (a 1)) (andb (a 2) (a 3)))) = 5%N /\
+  canon_size_bcdd 4 (lvl_fun (0 :: 2 :: 1 :: 3 :: nil) (fun a => orb (andb (a 0) (a 1)) (andb (a 2) (a 3)))) = 7%N /\
+  canon_size_bcdd 3 (fun _ => false) = 1%N.
+Proof. exact ex_canon_size_bcdd. Qed.
+Print Assumptions C03_node_count_canonical_size_bcdd_examples.
